@@ -202,6 +202,117 @@ def run(ctx: Ctx) -> None:
     from .c12 import run as _c12  # noqa: F401  (namespace-walk obligations are evaluated by the shared helper below)
     _namespace_walk(ctx, "R1.7")
 
+    # ---------------------------------------------------------------- R1.9
+    ctx.rule("R1.9", "parsed information is not dropped: no value-bearing local dies unread, every parameter of a parsing method is used", minimum=150)
+    from ..cfg import node_defs
+    handlers = set(pm.handlers())
+    for fname, fn in pm.methods.items():
+        cfg = pm.cfg(fname)
+        closure_used = set()
+        for x in ast.walk(fn):
+            if x is not fn and isinstance(x, (ast.Lambda, ast.FunctionDef, ast.GeneratorExp, ast.ListComp, ast.SetComp, ast.DictComp)):
+                closure_used |= {y.id for y in ast.walk(x) if isinstance(y, ast.Name) and isinstance(y.ctx, ast.Load)}
+
+        def uses(n):
+            u = set(closure_used)
+            for x in n.walk():
+                if isinstance(x, ast.Name) and isinstance(x.ctx, ast.Load):
+                    u.add(x.id)
+            if n.kind == "stmt" and isinstance(n.stmt, ast.AugAssign) and isinstance(n.stmt.target, ast.Name):
+                u.add(n.stmt.target.id)
+            return u
+
+        live_in = {n.id: set() for n in cfg.nodes}
+        live_out = {n.id: set() for n in cfg.nodes}
+        changed = True
+        while changed:
+            changed = False
+            for n in reversed(cfg.nodes):
+                out = set()
+                for s_, _ in n.succ:
+                    out |= live_in[s_.id]
+                inn = uses(n) | (out - node_defs(n))
+                if out != live_out[n.id] or inn != live_in[n.id]:
+                    live_out[n.id], live_in[n.id] = out, inn
+                    changed = True
+        first_def = {}
+        for n in cfg.nodes:
+            for v in node_defs(n):
+                if v not in first_def or (n.lineno and n.lineno < first_def[v].lineno):
+                    first_def[v] = n
+        for n in cfg.nodes:
+            st = n.stmt
+            if n.kind != "stmt" or not isinstance(st, (ast.Assign, ast.AnnAssign)) or getattr(st, "value", None) is None:
+                continue
+            for v in node_defs(n):
+                if v.startswith("_") or v in live_out[n.id]:
+                    ctx.ob("R1.9", f"parser:CxxParser.{fname}|{v} @ `{short(st, 40)}`", True, node=st, mod=mod, nontrivial=False) if v in live_out[n.id] else None
+                    continue
+                val = st.value
+                effectful = any(isinstance(x, ast.Call) for x in ast.walk(val))
+                default_init = first_def.get(v) is n and (
+                    (isinstance(val, ast.Constant) and val.value in (None, "", 0, False)) or (isinstance(val, (ast.List, ast.Dict, ast.Set, ast.Tuple)) and not getattr(val, "elts", getattr(val, "keys", []))))
+                dies = cfg.paths_avoiding(n, cfg.exit, lambda x, v=v: v in node_defs(x)) or any(s_ is cfg.exit for s_, _ in n.succ)
+                ok = effectful or default_init or not dies
+                ctx.ob("R1.9", f"parser:CxxParser.{fname}|{v} @ `{short(st, 40)}`", ok,
+                       msg=f"`{short(st)}` computes `{v}` but no path reads it afterwards: something the parser recognised (a flag, a name, a qualifier) is dropped instead of being reported", node=st, mod=mod)
+        sig_handler = fname in handlers or fname.startswith(("_consume_", "_on_", "_process_"))
+        used = {x.id for x in ast.walk(fn) if isinstance(x, ast.Name) and isinstance(x.ctx, ast.Load)}
+        for a in fn.args.args[1:] + fn.args.kwonlyargs:
+            if sig_handler and a.arg in ("tok", "doxygen", "_", "ptok"):
+                continue
+            ctx.ob("R1.9", f"parser:CxxParser.{fname}|parameter {a.arg}", a.arg in used,
+                   msg=f"parameter `{a.arg}` of {fname} is never read: what the caller determined (e.g. a flag such as inline / is_typedef / template) is not reported", node=fn, mod=mod, nontrivial=False)
+
+    # ---------------------------------------------------------------- R1.10
+    ctx.rule("R1.10", "every field of every dataclass the parser emits is written somewhere (constructor argument, **props key, attribute store)", minimum=100)
+    written: Dict[str, Set[str]] = {c: set() for c in dcs}
+    constructed: Set[str] = set()
+    attr_stores: Set[str] = set()
+    # generic constructors: cls(...) where cls is a TypeVar over dataclasses
+    typevars: Dict[str, List[str]] = {}
+    for st in mod.tree.body:
+        if isinstance(st, ast.Assign) and isinstance(st.value, ast.Call) and norm(st.value.func).endswith("TypeVar"):
+            typevars[st.targets[0].id] = [norm(a) for a in st.value.args[1:] if norm(a) in dcs]
+    spread_all = keyset["both"] | keyset["meths"] | keyset["vars"] | {"msvc_convention"}
+    for fname, fn in pm.methods.items():
+        generic: Dict[str, List[str]] = {}
+        for a in fn.args.args:
+            if a.annotation is not None:
+                for tv, classes in typevars.items():
+                    if tv in norm(a.annotation):
+                        generic[a.arg] = classes
+        for x in walk_local(fn):
+            if isinstance(x, ast.Call) and isinstance(x.func, ast.Name) and (x.func.id in dcs or x.func.id in generic):
+                for cname in ([x.func.id] if x.func.id in dcs else generic[x.func.id]):
+                    constructed.add(cname)
+                    fields = list(dataclass_fields(types, cname))
+                    for i, a in enumerate(x.args):
+                        if i < len(fields):
+                            written[cname].add(fields[i])
+                    for k in x.keywords:
+                        if k.arg:
+                            written[cname].add(k.arg)
+                        else:
+                            written[cname] |= spread_all
+            if isinstance(x, (ast.Assign, ast.AugAssign)):
+                for t in (x.targets if isinstance(x, ast.Assign) else [x.target]):
+                    if isinstance(t, ast.Attribute):
+                        attr_stores.add(t.attr)
+            if isinstance(x, ast.Call) and isinstance(x.func, ast.Name) and x.func.id == "setattr" and len(x.args) == 3:
+                cfg = pm.cfg(fname)
+                n = node_containing(cfg, x)
+                for d, lab in (cfg.control_deps(n) if n is not None else []):
+                    if lab == "T" and isinstance(d.cond, ast.Compare) and isinstance(d.cond.ops[0], ast.In) and isinstance(d.cond.comparators[0], (ast.Tuple, ast.Set, ast.List)):
+                        attr_stores |= {e.value for e in d.cond.comparators[0].elts if isinstance(e, ast.Constant)}
+    constant_by_design = {("AutoSpecifier", "name"): "the placeholder's name is always 'auto'"}
+    for cname in sorted(constructed):
+        for f in dataclass_fields(types, cname):
+            if (cname, f) in constant_by_design:
+                continue
+            ctx.ob("R1.10", f"types:{cname}.{f}|written by the parser", f in written[cname] or f in attr_stores,
+                   msg=f"no construction of {cname} passes `{f}` and nothing stores to `.{f}`: the field always keeps its default, whatever the source says", node=types.cls(cname), mod=types, nontrivial=False)
+
     # ---------------------------------------------------------------- R1.8
     ctx.rule("R1.8", "token vocabulary: every token type the parser names is one the lexer can deliver", minimum=150)
     seen: Set[Tuple[str, str]] = set()
